@@ -54,21 +54,23 @@ class Parameter:
         self.width = 0.0
 
     def set_boundaries(self, lower, upper):
-        if lower < upper:
+        if self._non_negative and lower < upper <= 0:
+            warn("Upper limit must be positive for a non-negative parameter")
+        elif lower < upper:
             self.upper = upper
             self.lower = lower
             self.width = upper - lower
-            self.proposal = self.boundary_proposal
             self.bounded = True
+            self.update_proposal()
         else:
             warn("Upper limit must be greater than lower limit")
 
     def remove_boundaries(self):
-        self.proposal = self.standard_proposal
         self.bounded = False
         self.upper = 0.0
         self.lower = 0.0
         self.width = 0.0
+        self.update_proposal()
 
     @property
     def non_negative(self):
@@ -77,13 +79,27 @@ class Parameter:
     @non_negative.setter
     def non_negative(self, value):
         if type(value) is bool:
-            self._non_negative = value
-            if self._non_negative is True:
-                self.proposal = self.abs_proposal
+            if value and self.bounded and self.upper <= 0:
+                warn("Upper limit must be positive for a non-negative parameter")
             else:
-                self.proposal = self.standard_proposal
+                self._non_negative = value
+                self.update_proposal()
         else:
             warn("non_negative must have a boolean value")
+
+    def update_proposal(self):
+        """
+        Select the proposal from the limits which are currently in force.
+        This is the only place where ``proposal`` is assigned, so that setting
+        or removing one limit cannot override the other. If boundaries and
+        non-negativity are both set, ``boundary_proposal`` enforces both.
+        """
+        if self.bounded:
+            self.proposal = self.boundary_proposal
+        elif self._non_negative:
+            self.proposal = self.abs_proposal
+        else:
+            self.proposal = self.standard_proposal
 
     def standard_proposal(self):
         # increment the try count
@@ -114,12 +130,16 @@ class Parameter:
 
         # we now pass the proposal through a 'reflecting' function where
         # proposals falling outside the boundary are reflected inside
-        d = prop - self.lower
-        n = (d // self.width) % 2
+        # (a non-negative parameter is reflected into the non-negative
+        # part of the interval, so that both limits hold)
+        lower = max(self.lower, 0.0) if self._non_negative else self.lower
+        width = self.upper - lower
+        d = prop - lower
+        n = (d // width) % 2
         if n == 0:
-            return self.lower + d % self.width
+            return lower + d % width
         else:
-            return self.upper - d % self.width
+            return self.upper - d % width
 
     def submit_accept_prob(self, p: float):
         self.num += 1
@@ -208,12 +228,7 @@ class Parameter:
         param.lower = float(dictionary[i + "lower"])
         param.width = float(dictionary[i + "width"])
 
-        if param.bounded:
-            param.proposal = param.boundary_proposal
-        elif param._non_negative:
-            param.proposal = param.abs_proposal
-        else:
-            param.proposal = param.standard_proposal
+        param.update_proposal()
         return param
 
 
